@@ -72,6 +72,70 @@ def run(ctx):
         except Exception as ex:
             import traceback as _tb
             viol.append(dict(case, kind="a later integrate call raised", error=repr(ex)[:300], trace=_tb.format_exc()[-600:]))
+    # ---- networks: stimuli, clamps of voltages and of SYNAPTIC states (interleaved synapse types, so that
+    #      global edge index != index within the synapse type), repeated / jitted / checkpointed calls
+    from jaxley.connect import connect
+    from jaxley.synapses import IonotropicSynapse, TestSynapse
+    PATTERNS = [[IonotropicSynapse, TestSynapse, TestSynapse, TestSynapse], [TestSynapse, IonotropicSynapse, IonotropicSynapse],
+                [IonotropicSynapse, TestSynapse, IonotropicSynapse, TestSynapse]]
+    for ni in range(ctx.budget(3, 12)):
+        tys = PATTERNS[ni % len(PATTERNS)] if ni < 2 * len(PATTERNS) else [rng.choice([IonotropicSynapse, TestSynapse]) for _ in range(rng.randint(2, 5))]
+        nsteps = rng.randint(3, 6)
+        comp = jx.Compartment()
+        try:
+            with quiet():
+                net = jx.Network([jx.Cell([jx.Branch([comp] * 2)], parents=[-1]) for _ in range(3)])
+                net.insert(HH())
+                pairs = []
+                for t in tys:
+                    a, b = rng.sample(range(6), 2)
+                    connect(net.select(nodes=[a]), net.select(nodes=[b]), t())
+                    pairs.append((a, b))
+                for k in range(6):
+                    net.select(nodes=[k]).set("v", -70.0 + 5 * k)
+                state_of = {IonotropicSynapse: "IonotropicSynapse_s", TestSynapse: "TestSynapse_c"}
+                for e, t in enumerate(tys):
+                    net.select(edges=[e]).set(state_of[t], 0.1 + 0.1 * e)
+                # clamp the LAST synapse of a type that is preceded by synapses of the other type
+                cl = max(e for e, t in enumerate(tys) if any(t2 is not t for t2 in tys[:e])) if len(set(tys)) > 1 else len(tys) - 1
+                net.select(edges=[cl]).clamp(state_of[tys[cl]], jnp.asarray([0.77] * nsteps))
+                net.select(nodes=[0]).stimulate(jnp.asarray([0.5] * nsteps))
+                if rng.random() < 0.5:
+                    net.select(nodes=[3]).clamp("v", jnp.asarray([-55.0] * nsteps))
+                net.record("v")
+                for e, t in enumerate(tys):
+                    net.select(edges=[e]).record(state_of[t])
+            case = {"network": "3 cells x 2 comps", "edge_types": [t.__name__ for t in tys], "pairs": pairs, "clamped_edge": cl, "nsteps": nsteps}
+            distinct.add(("net", tuple(case["edge_types"]), cl, nsteps))
+            kw = dict(delta_t=0.025, voltage_solver=rng.choice(["jaxley.thomas", "jax.sparse"]))
+            snap0 = simlib.snapshot(net)
+            with quiet():
+                ref = np.asarray(jx.integrate(net, **kw))
+            evals += 1
+            row = 6 + cl
+            if np.abs(ref[row, 1:] - 0.77).max() > 1e-12:
+                viol.append(dict(case, kind="the clamped synaptic state does not follow its clamp", got=ref[row].tolist()))
+            d = simlib.diff_snap(snap0, simlib.snapshot(net))
+            if d:
+                viol.append(dict(case, kind="integrate changed the module", changed=d))
+            outs = {}
+            with quiet():
+                outs["repeated"] = np.asarray(jx.integrate(net, **kw))
+                outs["jit"] = np.asarray(jax.jit(lambda: jx.integrate(net, **kw))())
+                outs["third call"] = np.asarray(jx.integrate(net, **kw))
+                for clens in simlib.factorizations(nsteps, 2, slack=1)[1:3]:
+                    outs[f"checkpoint_lengths={clens}"] = np.asarray(jx.integrate(net, checkpoint_lengths=clens, **kw))
+            evals += len(outs)
+            for how, o in outs.items():
+                if o.shape != ref.shape or np.abs(o - ref).max() > 1e-9 * max(1.0, float(np.abs(ref).max())):
+                    viol.append(dict(case, kind=f"network: {how} differs from the first eager call",
+                                     maxdiff=float(np.abs(o - ref).max()) if o.shape == ref.shape else None))
+            d = simlib.diff_snap(snap0, simlib.snapshot(net))
+            if d:
+                viol.append(dict(case, kind="repeated integrate calls changed the module", changed=d))
+        except Exception as ex:
+            import traceback as _tb
+            viol.append({"kind": "network integrate raised", "edge_types": [t.__name__ for t in tys], "error": repr(ex)[:300], "trace": _tb.format_exc()[-600:]})
     evals += evc[0]
     for v in viol:
         v.setdefault("finding_class", None)
@@ -81,7 +145,7 @@ def run(ctx):
 
 RULE = ("random branched cells (Leak or HH, heterogeneous parameters, stimulus on 1-2 compartments, optional clamp of different width, trainables) x (solver, backend): "
         "eager vs repeated vs jit vs vmap(params) vs vmap(stimuli) vs every checkpoint_lengths factorisation (depth<=3, product in [n, n+slack]); "
-        "deep snapshot of the module before/after; distinct by (cell, steps, layout)")
+        "deep snapshot of the module before/after; networks with interleaved synapse types, a clamp on the synaptic state of an edge whose global index differs from its index within the type, voltage clamp, stimulus: first call vs repeated vs jit vs third vs checkpoint layouts, clamp followed exactly, module unchanged; distinct by (cell, steps, layout)")
 
 
 def _rest(ctx, rng, cell, params, kw, vs, case, ref, scale, snap0, nsteps, parents, counts, use_hh, viol, distinct, evc):
